@@ -60,6 +60,11 @@ impl Snap {
             .is_some_and(|b| !b.is_empty())
     }
 
+    pub fn has_head_file(&self, band: u32) -> bool {
+        self.files
+            .contains_key(&format!("{}/BANDHEAD", band_dir(band)))
+    }
+
     pub fn has_tail_file(&self, band: u32) -> bool {
         self.files
             .contains_key(&format!("{}/BANDTAIL", band_dir(band)))
